@@ -7,7 +7,7 @@ export GOFLAGS=-mod=mod GOPROXY=off GOSUMDB=off GOTOOLCHAIN=local
 target=$(mktemp -d /var/tmp/seedrepo.XXXXXX)
 cp -r /repo/. "$target"/ && rm -rf "$target/.git"
 ( cd "$target" && patch -p1 -s < "$dst/patch.diff" ) || { echo "cannot apply"; rm -rf "$target"; exit 2; }
-r=$(/verif/bin/sigverif -repo "$target" check $p 2>&1); rc=$?
+r=$(${SIGVERIF:-/verif/bin/sigverif} -repo "$target" check $p 2>&1); rc=$?
 { echo "== $p exit=$rc"; echo "$r" | grep -E "^VIOLATION|^KNOWN|GENERATOR" | cut -c1-300; } > "$dst/own.txt"
 rm -rf "$target"
 echo "$id: exit=$rc own=$(grep -c "^VIOLATION property=$p " $dst/own.txt) real=$(grep "^VIOLATION property=$p " $dst/own.txt | grep -vc 'generator/') confirmed=$(grep "^VIOLATION property=$p " $dst/own.txt | grep -vc no-failing-input-found)"
